@@ -77,8 +77,6 @@ impl<'c> FlRun<'c> {
         let mut sig = BTreeMap::new();
         sig.insert("after".to_string(), self.last_kind.to_string());
         sig.insert("head_zero_nonempty".to_string(), if self.fl.head_page() == 0 && self.fl.free_count() > 0 { "yes" } else { "no" }.to_string());
-        sig.insert("trunks".to_string(), format!("{}", self.trunks_seen.len().min(4)));
-        sig.insert("reopened".to_string(), if self.reopened { "yes" } else { "no" }.to_string());
         for (k, v) in extra {
             sig.insert(k.to_string(), v.clone());
         }
@@ -87,7 +85,7 @@ impl<'c> FlRun<'c> {
             return;
         }
         let detail = format!(
-            "step {} {:?}: {}\nfreelist: head_page={} free_count={}; model: {} free pages, {} handed out; trunk pages seen {:?}",
+            "step {} {:?}: {}\nfreelist: head_page={} free_count={}; model: {} free pages, {} handed out; reopened: {}; trunk pages seen {:?}",
             idx,
             self.case.ops.get(idx),
             detail,
@@ -95,6 +93,7 @@ impl<'c> FlRun<'c> {
             self.fl.free_count(),
             self.free.len(),
             self.handed.len(),
+            self.reopened,
             self.trunks_seen
         );
         self.out.violations.push(Violation { property: "C34".into(), verdict: verdict.into(), sig, detail, case: self.case_upto(idx) });
@@ -247,12 +246,21 @@ pub fn run_fl_case(case: &FlCase) -> RunOutcome {
                 }
             }
             FlOp::Alloc { n } => {
+                let mut nones = 0;
                 for _ in 0..*n {
                     if run.stop {
                         break;
                     }
-                    if run.allocate(i, false).is_none() {
-                        break;
+                    match run.allocate(i, false) {
+                        None => break,
+                        Some(false) => {
+                            // two consecutive refusals: the rest of this burst would be the same
+                            nones += 1;
+                            if nones >= 2 {
+                                break;
+                            }
+                        }
+                        Some(true) => nones = 0,
                     }
                 }
             }
@@ -262,6 +270,7 @@ pub fn run_fl_case(case: &FlCase) -> RunOutcome {
                 run.out.count("op.reopen", 1);
             }
         }
+        let _ = run.st.take_dirty();
         let e = format!("{}:{:?}:head{}:fc{}:model{}", i, op, run.fl.head_page(), run.fl.free_count(), run.free.len());
         run.event(e);
     }
